@@ -68,7 +68,11 @@ mut('C12', 'final_unterminated_line_lost_when_buffer_refilled', [e(PY_CSV, "    
 mut('C12', 'read_until_found_checks_lf_only', [e(PY_CSV, "            if csv_utils.newline_rgx.search(chunk) is not None:\n                break\n", "            if '\\n' in chunk:\n                break\n")], expect='clean', runs=3000)
 mut('C12', 'default_chunk_size_7', [e(PY_CSV, "variable_prefix='a', chunk_size=1024, line_mode=False", "variable_prefix='a', chunk_size=7, line_mode=False")], expect='clean', runs=3000)
 
+mut('C12', 'warnings_reworded', [e(PY_CSV, "result.append('UTF-8 Byte Order Mark (BOM) was found and skipped in {} table'.format(self.table_name))", "result.append('A byte order mark (BOM) at the start of the {} table has been ignored'.format(self.table_name))"),
+                               e(PY_CSV, "result.append('Inconsistent double quote escaping in {} table. E.g. at line {}'.format(self.table_name, self.first_defective_line))", "result.append('Defective quoting in {} table, first seen at line {}'.format(self.table_name, self.first_defective_line))")], expect='clean', runs=6000)
+
 # ------------------------------------------------------------------ C15
+mut('C15', 'decode_error_message_reworded', [e(PY_CSV, "raise rbql_engine.RbqlIOHandlingError('Unable to decode input table as UTF-8. Use binary (latin-1) encoding instead')", "raise rbql_engine.RbqlIOHandlingError('Input table is not valid UTF-8, try --encoding latin-1')")], expect='clean', runs=3000)
 mut('C15', 'broken_pipe_not_caught_in_write', [e(PY_CSV, "        except broken_pipe_exception as exc:\n            if broken_pipe_exception == IOError:\n                if exc.errno != EPIPE:\n                    raise\n            self.broken_pipe = True\n            return False\n",
                                                  "        except ZeroDivisionError as exc:\n            self.broken_pipe = True\n            return False\n")], runs=1500)
 mut('C15', 'close_fix_reverted_in_finish', [e(PY_CSV, "            close_ignoring_broken_pipe(self.stream)\n", "            self.stream.close()\n")], runs=1500)
